@@ -11,6 +11,7 @@ package uses these methods on); none changes which object is mutated or aliased:
   np.m(X, k)                     -> np.m(X, axis=k)          (m in REDUCERS)
   X, = np.where(c)               -> X = np.flatnonzero(c)      (unpacking a 1-tuple means c is one-dimensional)
   np.where(c.flat)[0], np.where(c.ravel())[0] -> np.flatnonzero(c)
+  np.flatnonzero(c).size, len(np.flatnonzero(c)), np.size(np.flatnonzero(c)), np.size(np.where(c.flat)) -> np.count_nonzero(c)
   np.nonzero(c), c.nonzero()     -> np.where(c)
   X.shape[0], np.shape(X)[0], np.size(X, 0), np.size(X, axis=0) -> len(X)
   T[i] = T[i] op E, T[i] = E + T[i]   -> T[i] op= E       (subscript targets only: same element store either way)
@@ -193,9 +194,18 @@ class _Spell(ast.NodeTransformer):
             r = _root(f.value)
             if r is not None and r not in _NOT_ARRAYS:
                 return ast.copy_location(ast.Call(func=self._npattr('array'), args=[f.value], keywords=[ast.keyword(arg='dtype', value=n.args[0])]), n)
+        if isinstance(f, ast.Name) and f.id == 'len' and len(n.args) == 1 and not n.keywords and isinstance(n.args[0], ast.Call) \
+                and self._is_np(n.args[0].func, 'flatnonzero') and len(n.args[0].args) == 1:
+            return ast.copy_location(ast.Call(func=self._npattr('count_nonzero'), args=n.args[0].args, keywords=[]), n)      # len(np.flatnonzero(c))
         if not self._is_np(f):
             return n
         a = f.attr
+        if a == 'size' and len(n.args) == 1 and not n.keywords and isinstance(n.args[0], ast.Call) and len(n.args[0].args) == 1 and not n.args[0].keywords:
+            inner = n.args[0]
+            if self._is_np(inner.func, 'flatnonzero'):
+                return ast.copy_location(ast.Call(func=self._npattr('count_nonzero'), args=inner.args, keywords=[]), n)
+            if self._is_np(inner.func, 'where') and self._flat_arg(inner.args[0]) is not None:
+                return ast.copy_location(ast.Call(func=self._npattr('count_nonzero'), args=[self._flat_arg(inner.args[0])], keywords=[]), n)
         if a == 'logical_not' and len(n.args) == 1 and not n.keywords and isinstance(n.args[0], ast.Compare) and len(n.args[0].ops) == 1 \
                 and isinstance(n.args[0].ops[0], (ast.Eq, ast.NotEq)):
             c = n.args[0]
@@ -231,6 +241,9 @@ class _Spell(ast.NodeTransformer):
                 and len(n.args) == {'repeat': 3, 'stack': 2, 'concatenate': 2, 'delete': 3, 'append': 3, 'take': 3}[a]:
             n.keywords = list(n.keywords) + [ast.keyword(arg='axis', value=n.args[-1])]
             n.args = n.args[:-1]
+        if a == 'absolute':
+            n.func = self._npattr('abs')
+            a = 'abs'
         if a in ('triu', 'tril') and len(n.args) == 1 and len(n.keywords) == 1 and n.keywords[0].arg == 'k':
             n.args = list(n.args) + [n.keywords[0].value]
             n.keywords = []
@@ -262,6 +275,14 @@ class _Spell(ast.NodeTransformer):
         if isinstance(e, ast.Call) and self._is_np(e.func, 'ravel') and len(e.args) == 1 and not e.keywords:
             return e.args[0]
         return None
+
+    def visit_Attribute(self, n):
+        self.generic_visit(n)
+        # np.flatnonzero(c).size  ->  np.count_nonzero(c)
+        if n.attr == 'size' and isinstance(n.ctx, ast.Load) and isinstance(n.value, ast.Call) and self._is_np(n.value.func, 'flatnonzero') \
+                and len(n.value.args) == 1 and not n.value.keywords:
+            return ast.copy_location(ast.Call(func=self._npattr('count_nonzero'), args=n.value.args, keywords=[]), n)
+        return n
 
     def visit_Subscript(self, n):
         self.generic_visit(n)
@@ -349,11 +370,77 @@ class _Struct(ast.NodeTransformer):
         (`if c: continue` + REST -> `if not c: REST`); in a function body `if c: X; return v` + REST -> `if c: X; return v else: REST`;
       * `a, b = x, y` with plain names on the left that do not occur on the right -> `a = x; b = y`;
       * `a = b = <literal>` -> `a = <literal>; b = <literal>`;
-      * `if not c: A else: B` / `if x is not y: A else: B` / `if a != b: A else: B` -> positive test first with the arms exchanged."""
+      * `if not c: A else: B` / `if x is not y: A else: B` / `if a != b: A else: B` -> positive test first with the arms exchanged;
+      * `while True: if not c: break; BODY` -> `while c: BODY`; `x = x` dropped; comprehension `for i, s in enumerate(X)` -> `for i in range(len(X))`."""
+
+    def visit_While(self, node):
+        self.generic_visit(node)
+        # `while True: if not c: break; BODY` is `while c: BODY` (a `continue` re-tests the guard either way)
+        if isinstance(node.test, ast.Constant) and node.test.value is True and not node.orelse and node.body \
+                and isinstance(node.body[0], ast.If) and not node.body[0].orelse and len(node.body[0].body) == 1 \
+                and isinstance(node.body[0].body[0], ast.Break) and len(node.body) > 1:
+            node.test = _negate(node.body[0].test)
+            node.body = node.body[1:]
+        return node
+
+    def _enum(self, target, it):
+        """(i, s, X) for `for i, s in enumerate(X)` with plain names, else None"""
+        if isinstance(target, ast.Tuple) and len(target.elts) == 2 and all(isinstance(e, ast.Name) for e in target.elts) \
+                and isinstance(it, ast.Call) and isinstance(it.func, ast.Name) and it.func.id == 'enumerate' and len(it.args) == 1 \
+                and not it.keywords and isinstance(it.args[0], ast.Name):
+            return target.elts[0].id, target.elts[1].id, it.args[0].id
+        return None
+
+    def visit_comprehension(self, node):
+        self.generic_visit(node)
+        return node
+
+    def _deenumerate(self, node):
+        """comprehensions: `for i, s in enumerate(X)` -> `for i in range(len(X))` with s spelled X[i]"""
+        for g in node.generators:
+            e = self._enum(g.target, g.iter)
+            if e is None:
+                continue
+            i, sname, X = e
+
+            class _R(ast.NodeTransformer):
+                def visit_Name(self, n):
+                    if n.id == sname and isinstance(n.ctx, ast.Load):
+                        return ast.copy_location(ast.Subscript(value=ast.Name(id=X, ctx=ast.Load()), slice=ast.Name(id=i, ctx=ast.Load()), ctx=ast.Load()), n)
+                    return n
+            g.target = ast.copy_location(ast.Name(id=i, ctx=ast.Store()), g.target)
+            g.iter = ast.copy_location(ast.Call(func=ast.Name(id='range', ctx=ast.Load()), args=[
+                ast.Call(func=ast.Name(id='len', ctx=ast.Load()), args=[ast.Name(id=X, ctx=ast.Load())], keywords=[])], keywords=[]), g.iter)
+            g.ifs = [_R().visit(x) for x in g.ifs]
+            for fld in ('elt', 'key', 'value'):
+                if hasattr(node, fld):
+                    setattr(node, fld, _R().visit(getattr(node, fld)))
+            later = node.generators[node.generators.index(g) + 1:]
+            for g2 in later:
+                g2.iter = _R().visit(g2.iter)
+                g2.ifs = [_R().visit(x) for x in g2.ifs]
+        return node
+
+    def visit_ListComp(self, node):
+        self.generic_visit(node)
+        return self._deenumerate(node)
+
+    visit_SetComp = visit_GeneratorExp = visit_DictComp = visit_ListComp
 
     def _split(self, stmts):
         out = []
+        kept = [st for st in stmts if not (isinstance(st, ast.Assign) and len(st.targets) == 1 and isinstance(st.targets[0], ast.Name)
+                                           and isinstance(st.value, ast.Name) and st.value.id == st.targets[0].id)]      # `x = x`
+        stmts = kept if kept or not stmts else [ast.copy_location(ast.Pass(), stmts[0])]
         for st in stmts:
+            if isinstance(st, ast.Assign) and len(st.targets) == 1 and isinstance(st.targets[0], ast.Tuple) and isinstance(st.value, ast.Name) \
+                    and 2 <= len(st.targets[0].elts) <= 4 and all(isinstance(t, ast.Name) for t in st.targets[0].elts) \
+                    and st.value.id not in {t.id for t in st.targets[0].elts}:
+                # unpacking a named tuple of arrays: `a, b = X` is `a = X[0]; b = X[1]`
+                for k_, t in enumerate(st.targets[0].elts):
+                    out.append(ast.copy_location(ast.Assign(targets=[t], value=ast.Subscript(
+                        value=ast.Name(id=st.value.id, ctx=ast.Load()), slice=ast.Constant(value=k_), ctx=ast.Load())), st))
+                continue
             if isinstance(st, ast.Assign) and len(st.targets) == 1 and isinstance(st.targets[0], ast.Tuple) and isinstance(st.value, ast.Tuple) \
                     and len(st.targets[0].elts) == len(st.value.elts) and all(isinstance(t, ast.Name) for t in st.targets[0].elts) \
                     and not any(isinstance(v, ast.Starred) for v in st.value.elts) \
@@ -389,6 +476,8 @@ class _Struct(ast.NodeTransformer):
 
     def visit_If(self, node):
         self.generic_visit(node)
+        if node.orelse and all(isinstance(x, ast.Pass) for x in node.orelse):
+            node.orelse = []                          # `else: pass` (e.g. what is left of `else: x = x`)
         if node.orelse and all(isinstance(x, ast.Pass) for x in node.body):
             node.test = _negate(node.test)            # `if c: pass else: X` -> `if not c: X`
             node.body, node.orelse = node.orelse, []
